@@ -186,6 +186,10 @@ def _address_job(rec):
             c = c0 + i
             forms += [f'=ADDRESS(1,{c})', f'=ADDRESS(10,{c})', f'=ADDRESS(1048576,{c})', '=ADDRESS(B1,A1)']
             want += [a[0], a[1], a[2], ('ov', c, a[1])]
+            if i % 10 == 0:
+                # row and column numbers that are results of a division (the same numbers, held as floats)
+                forms += ['=ADDRESS(B1/1,A1/1)', f'=ADDRESS(20/2,{c})']
+                want += [('ov', c, a[1]), a[1]]
             # COLUMN of a reference spelled with the spec's own letters
             forms.append(f'=COLUMN({a[3]}7)')
             want.append(('num', c))
